@@ -729,6 +729,33 @@ pub fn gen_case(prop: &str, rng: &mut Rng, n: usize, thorough: bool) -> (String,
                 let text = if enc == Enc::U16 { to_units(rng, &t, false) } else { t };
                 return ("brk-all".into(), Input::Bidi { enc, api: Api::B, dir, text, ds: None });
             }
+            let m = n - 4 * OPEN_BRACKETS.len();
+            if m >= 48 && m < 52 || rng.chance(1, 2500) {
+                // a paragraph longer than 65,535 code units: the tail must resolve as after a short prefix
+                let tm = pick_mode(rng, &[("n0", 3), ("short", 2), ("weak", 1), ("iso", 1)]);
+                let mut tail: Vec<u32> = gen_text(rng, tm).into_iter().filter(|c| !matches!(*c, 0xA | 0xD | 0x1C | 0x1D | 0x1E | 0x85 | 0x2029)).collect();
+                tail.truncate(24);
+                let enc = if rng.chance(1, 2) { Enc::U8 } else { Enc::U16 };
+                let tail = if enc == Enc::U16 { to_units(rng, &tail, false) } else { tail };
+                return ("huge".into(), Input::MetaLong { enc, tail, dir: pick_dir(rng), n: 65_500 + rng.below(200) });
+            }
+            if m < 48 {
+                // the BD16 limit, deterministically: k = 61..=66 openers pending at once in ONE isolating run sequence,
+                // in contexts where "paired" and "not paired" resolve differently (N0 vs N1/N2), 2 templates x 2
+                // directions x 2 encodings; with k >= 64 nothing may pair, with k <= 63 everything does
+                let k = 61 + m % 6;
+                let v = m / 6;                  // 0..8
+                let (o, c) = if v % 2 == 0 { (0x28u32, 0x29u32) } else { (0xFF08, 0xFF09) };
+                let mut t: Vec<u32> = if (v / 2) % 2 == 0 { vec![0x61, 0x20, 0x5D0] } else { vec![0x5D0, 0x20, 0x61] };
+                for _ in 0..k { t.push(o); }
+                t.extend_from_slice(if (v / 2) % 2 == 0 { &[0x5D1, 0x20, 0x62] } else { &[0x62, 0x20, 0x5D1] });
+                for _ in 0..k { t.push(c); }
+                t.push(if (v / 2) % 2 == 0 { 0x5D2 } else { 0x63 });
+                let enc = if v / 4 == 0 { Enc::U8 } else { Enc::U16 };
+                let dir = if (v / 2) % 2 == 0 { Dir::L0 } else { Dir::L1 };
+                let text = if enc == Enc::U16 { to_units(rng, &t, false) } else { t };
+                return ("brk-limit".into(), Input::Bidi { enc, api: Api::B, dir, text, ds: None });
+            }
             bidi_case(rng, &MODES_ALL, true)
         }
         "C02" => {
@@ -827,6 +854,22 @@ pub fn gen_case(prop: &str, rng: &mut Rng, n: usize, thorough: bool) -> (String,
                 let enc = if rng.chance(1, 2) { Enc::U8 } else { Enc::U16 };
                 let text = if enc == Enc::U16 { to_units(rng, &t, false) } else { t };
                 return ("ds-keys".into(), Input::Bidi { enc, api: Api::B, dir: pick_dir(rng), text, ds: Some(spec) });
+            }
+            if rng.chance(1, 12) {
+                // a zero-sized data source type (ops::ZstDs): upper case R, digits AN, < > the only brackets
+                let alpha: Vec<u32> = "ABCXYZabcxyz0123<<>>()  .,-\u{5D0}\u{661}".chars().map(|c| c as u32).collect();
+                let n = rng.range(1, 16);
+                let mut t: Vec<u32> = (0..n).map(|_| *rng.pick(&alpha)).collect();
+                if rng.chance(1, 4) { let k = rng.below(t.len() + 1); t.insert(k, *rng.pick(&[LRI_C, RLI_C, FSI_C, PDI_C, RLE_C, PDF_C, 0xA])); }
+                let enc = if rng.chance(1, 2) { Enc::U8 } else { Enc::U16 };
+                let text = if enc == Enc::U16 { to_units(rng, &t, false) } else { t };
+                let spec = crate::ops::zst_spec();
+                return if rng.chance(1, 4) {
+                    ("ds-zst".into(), Input::BaseDir { enc, text, ds: Some(spec) })
+                } else {
+                    let api = if rng.chance(2, 3) { Api::B } else { Api::P };
+                    ("ds-zst".into(), Input::Bidi { enc, api, dir: pick_dir(rng), text, ds: Some(spec) })
+                };
             }
             if rng.chance(1, 10) {
                 // no custom source: the convenience constructors against the built-in source passed explicitly (CONV)
